@@ -52,6 +52,18 @@ Theorem C02_tables_conform_to_descriptors :
   conforms pb_desc pb_ignored W.records = true /\ conforms pb_desc pb_ignored R.records = true.
 Proof. exact (conj writer_tables_conform reader_tables_conform). Qed.
 
+(* ... and this judgement is sound for the protobuf runtime's own demands: every message the model's writer emits
+   under a table of W (at every nesting level) holds only fields of its message type, a singular field at most
+   once and every field the .proto requires *)
+Theorem C02_conforming_table_writes_legal_messages : forall d ign recs mname fs dfs,
+  conforms_rec d ign recs (mname, FRec fs) = true -> lookup mname d = Some dfs -> wf (FRec fs) = true ->
+  forall vs ks, write_fields fs vs = Some ks -> wire_ok ign mname dfs ks = true.
+Proof. exact conforms_wire_ok. Qed.
+Theorem C02_written_messages_legal : forall mname fs dfs,
+  In (mname, FRec fs) W.records -> lookup mname pb_desc = Some dfs ->
+  forall vs ks, write_fields fs vs = Some ks -> wire_ok pb_ignored mname dfs ks = true.
+Proof. exact written_messages_wire_ok. Qed.
+
 (* what a deviation of the reader would look like: an optional field consumed without HasField is reported by
    tdiff and loses exactly the objects that lack the datum *)
 Theorem C02_unguarded_read_detected : tdiff W.f_Rectangle rectangle_unguarded = [["orientation"]].
@@ -92,6 +104,8 @@ Print Assumptions C02_agreeing_tables_roundtrip.
 Print Assumptions C02_document_roundtrip.
 Print Assumptions C02_document_injective.
 Print Assumptions C02_tables_conform_to_descriptors.
+Print Assumptions C02_conforming_table_writes_legal_messages.
+Print Assumptions C02_written_messages_legal.
 Print Assumptions C02_unguarded_read_detected.
 Print Assumptions C02_unguarded_read_refuted.
 Print Assumptions C02_enum_fields_known.
